@@ -1,8 +1,8 @@
 #!/bin/sh
-# Build the symbolic executor offline.
+# Build the symbolic executor and the oracle generator offline.
 set -e
 cd "$(dirname "$0")"
 export GOFLAGS=-mod=mod GOPROXY=off GOSUMDB=off GOTOOLCHAIN=local
-mkdir -p bin evidence replays
-(cd engine && go build -o ../bin/gosym .)
+mkdir -p bin evidence replays scratch
+(cd engine && go build -o ../bin/gosym . && go build -o ../bin/genast ./genast)
 echo "setup ok"
